@@ -504,7 +504,13 @@ struct PkPlain {
     good_checksum: bool,
 }
 
-fn pk_plain_cases(tier: Tier) -> Vec<PkPlain> {
+fn pk_plain_cases(tier: Tier) -> &'static Vec<PkPlain> {
+    static Q: std::sync::OnceLock<Vec<PkPlain>> = std::sync::OnceLock::new();
+    static T: std::sync::OnceLock<Vec<PkPlain>> = std::sync::OnceLock::new();
+    (if tier == Tier::Quick { &Q } else { &T }).get_or_init(|| pk_plain_cases_build(tier))
+}
+
+fn pk_plain_cases_build(tier: Tier) -> Vec<PkPlain> {
     let mut v = Vec::new();
     for key in [KeyKind::Rsa2048V4, KeyKind::EcdsaP256V4, KeyKind::Ed25519LegacyV4, KeyKind::EcdsaP521V4, KeyKind::Ed25519V4, KeyKind::Ed25519V6, KeyKind::Ed448V6] {
         for v6 in [false, true] {
@@ -582,7 +588,12 @@ struct PkFields {
     wildcard: bool,
 }
 
-fn pk_fields_cases() -> Vec<PkFields> {
+fn pk_fields_cases() -> &'static Vec<PkFields> {
+    static C: std::sync::OnceLock<Vec<PkFields>> = std::sync::OnceLock::new();
+    C.get_or_init(pk_fields_build)
+}
+
+fn pk_fields_build() -> Vec<PkFields> {
     let mut v = Vec::new();
     for alg in 0..5u8 {
         for v6 in [false, true] {
@@ -732,7 +743,13 @@ struct V2Header {
     sk_len: usize,
 }
 
-fn v2_header_cases(tier: Tier) -> Vec<V2Header> {
+fn v2_header_cases(tier: Tier) -> &'static Vec<V2Header> {
+    static Q: std::sync::OnceLock<Vec<V2Header>> = std::sync::OnceLock::new();
+    static T: std::sync::OnceLock<Vec<V2Header>> = std::sync::OnceLock::new();
+    (if tier == Tier::Quick { &Q } else { &T }).get_or_init(|| v2_header_cases_build(tier))
+}
+
+fn v2_header_cases_build(tier: Tier) -> Vec<V2Header> {
     let mut v = Vec::new();
     for sym in 0..=255u8 {
         for aead in 0..=255u8 {
@@ -878,6 +895,83 @@ fn inner_count(tier: Tier) -> u64 {
     1 + 256 + 65536 + if tier == Tier::Quick { 20_000 } else { 200_000 }
 }
 
+
+// ---- LibrePGP / GnuPG OCB packet (tag 20) behind the opt-in
+
+#[derive(Clone, Debug)]
+struct Gnupg {
+    sym: u8,
+    aead: u8,
+    chunk: u8,
+    /// None: the session key comes out of the vector's SKESK v5 (AES-128) under its password;
+    /// Some(n): a caller-supplied V5 session key of n octets
+    sk_len: Option<usize>,
+}
+
+fn gnupg_cases(tier: Tier) -> &'static Vec<Gnupg> {
+    static Q: std::sync::OnceLock<Vec<Gnupg>> = std::sync::OnceLock::new();
+    static T: std::sync::OnceLock<Vec<Gnupg>> = std::sync::OnceLock::new();
+    (if tier == Tier::Quick { &Q } else { &T }).get_or_init(|| gnupg_cases_build(tier))
+}
+
+fn gnupg_cases_build(tier: Tier) -> Vec<Gnupg> {
+    let mut v = Vec::new();
+    for via_skesk in [true, false] {
+        for sym in 0..=255u8 {
+            for aead in 0..=255u8 {
+                if tier == Tier::Quick && !(aead <= 4 || aead >= 254) {
+                    continue;
+                }
+                if !via_skesk && tier == Tier::Quick && !(sym <= 14 || sym >= 254) {
+                    continue;
+                }
+                v.push(Gnupg { sym, aead, chunk: 14, sk_len: if via_skesk { None } else { Some(16) } });
+            }
+        }
+    }
+    for chunk in 0..=255u8 {
+        v.push(Gnupg { sym: 7, aead: 2, chunk, sk_len: None });
+        v.push(Gnupg { sym: 7, aead: 1, chunk, sk_len: Some(16) });
+    }
+    for len in 0..=40usize {
+        for (sym, aead) in [(7u8, 2u8), (8, 2), (9, 2), (7, 1), (9, 1), (9, 3), (0, 2), (7, 0), (1, 2), (2, 2)] {
+            v.push(Gnupg { sym, aead, chunk: 14, sk_len: Some(len) });
+        }
+    }
+    v
+}
+
+fn run_gnupg(c: &Gnupg) -> Outcome {
+    // LibrePGP test vector: SKESK v5 (AES-128, OCB, password "password") + OCB packet
+    let skesk5 = cm::hexd("c33d05070203089f0b7da3e5ea64779099e326e5400a90936cefb4e8eba08c6773716d1f2714540a38fcac529949dac529d3de31e15b4aeb729e330033dbed");
+    let mut ocb = cm::hexd("d4490107020e5ed2bc1e470abe8f1d644c7a6c8a567b0f7701196611a154ba9c2574cd056284a8ef68035c623d93cc708a43211bb6eaf2b27f7c18d571bcd83b20add3a08b73af15b9a098");
+    ocb[3] = c.sym;
+    ocb[4] = c.aead;
+    ocb[5] = c.chunk;
+    let stream = if c.sk_len.is_none() { [skesk5, ocb].concat() } else { ocb };
+    stage_reset();
+    let r = crate::engine::guarded(|| {
+        let Ok(m) = dbg(Message::from_bytes(&stream[..])) else { return };
+        mark(0);
+        let pw = Password::from("password");
+        let opts = DecryptionOptions::new().enable_gnupg_aead();
+        let ring = match c.sk_len {
+            None => TheRing { message_password: vec![&pw], decrypt_options: opts, ..Default::default() },
+            Some(n) => TheRing { session_keys: vec![PlainSessionKey::V5 { key: vec![0x11u8; n].into() }], decrypt_options: opts, ..Default::default() },
+        };
+        if let Ok((m, _)) = dbg(m.decrypt_the_ring(ring, true)) {
+            mark(1);
+            drain_message(m, 1);
+        }
+    });
+    match r {
+        Ok(()) => Outcome::ok(stage_class()),
+        Err((loc, msg)) => Outcome::bad(
+            format!("C04:panic@{}:gnupg-aead-header", crate::engine::loc_file(&loc)),
+            format!("GnuPG OCB packet with cipher {} AEAD {} chunk {} and {}: panic at {loc}: {}", c.sym, c.aead, c.chunk, match c.sk_len { None => "the session key of a valid SKESK v5 (AES-128)".to_string(), Some(n) => format!("a {n}-octet V5 session key") }, msg.chars().take(120).collect::<String>()),
+        ),
+    }
+}
 
 // ---- attacker-chosen secret key material behind a valid checksum / valid protection
 
@@ -1069,6 +1163,7 @@ fn space_total(tier: Tier, space: &str) -> u64 {
         "seipdv2_header" => v2_header_cases(tier).len() as u64,
         "inner_streams" => inner_count(tier),
         "secret_material" => sec_total(tier),
+        "gnupg_aead_header" => gnupg_cases(tier).len() as u64,
         _ => 0,
     }
 }
@@ -1088,6 +1183,7 @@ fn case_json(tier: Tier, space: &str, idx: u64) -> Value {
         "skesk_v4_plaintext" => json!({"index": idx, "alg": idx / 41, "len": idx % 41}),
         "seipdv2_header" => json!({"index": idx, "case": format!("{:?}", v2_header_cases(tier)[idx as usize])}),
         "secret_material" => json!({"index": idx, "case": sec_case(tier, idx).3}),
+        "gnupg_aead_header" => json!({"index": idx, "case": format!("{:?}", gnupg_cases(tier)[idx as usize])}),
         _ => json!({"index": idx}),
     }
 }
@@ -1110,6 +1206,7 @@ fn run_case(tier: Tier, space: &str, idx: u64) -> Outcome {
         "seipdv2_header" => run_v2_header(&v2_header_cases(tier)[idx as usize]),
         "inner_streams" => run_inner(tier, idx),
         "secret_material" => run_sec(tier, idx),
+        "gnupg_aead_header" => run_gnupg(&gnupg_cases(tier)[idx as usize]),
         _ => Outcome::trivial("unknown space"),
     }
 }
@@ -1124,7 +1221,8 @@ pub fn worker(tier: Tier, space: &str, start: u64, end: u64) -> Option<Value> {
 
 pub fn check(ctx: &Ctx) {
     let tier = ctx.tier;
-    let spaces: [(&str, &str, u64); 8] = [
+    let spaces: [(&str, &str, u64); 9] = [
+        ("gnupg_aead_header", "LibrePGP / GnuPG OCB packet (tag 20, opt-in enabled) from the published test vector with its cipher x AEAD octets over all 256 x 256 pairs (quick: AEAD edge values), chunk octet 0..255, behind the vector's valid SKESK v5 (so that a genuine 16-octet session key meets every cipher octet) and with caller-supplied V5 session keys of every length 0..40", 10_000),
         ("secret_material", "attacker-chosen secret key material behind a valid checksum (unprotected, v4 16-bit checksum / v6 none) and behind valid usage-254 protection under the presented password (CFB + SHA-1 computed by the reference model), for the primary and the encryption subkey of all 10 key kinds (Ed25519 v4/v6/legacy, Ed448, ECDSA P-256 v4/v6, P-384, P-521, secp256k1, RSA-2048; X25519, X448, ECDH, RSA subkeys): every position of the genuine material set to 6 values (thorough: 256), every truncation, every string of length <= 1; parsed, re-serialised, unlocked, then used to sign a digest (primaries) or to decrypt a PKESK made for the genuine key (subkeys)", 3_000),
         ("small_strings", "EVERY byte string of length 0..2 (thorough: 0..3) at each of 13 entry points (PacketParser + re-serialisation, Message::from_bytes / from_armor + decrypt attempts + decompress + read + verify, SignedPublicKey / SignedSecretKey::from_bytes (+ verify_bindings, serialise, unlock, encrypt-to, sign-with), from_armor_single, from_bytes_many, DetachedSignature, CleartextSignedMessage, Dearmor (with and without CRC check), Base64Decoder<Base64Reader>, zero-length reads on every reader)", 40_000),
         ("seed_substitutions", "~230 seed artefacts (every packet type and version as produced by the library and the models, certificates, armored and cleartext documents, signed / compressed / encrypted messages): every position set to 10 adversarial values (thorough: all 256) and every truncation, at the entry points that apply to the artefact, followed by re-serialisation / verification / decryption attempts", 20_000),
